@@ -62,7 +62,7 @@ PROPS = {
                 engines=SHIELD["engines"] + [chain("payout", 64, 640, ops=120, tops=200), UBDQ, REIMB],
                 assumptions=SHIELD["assumptions"] + [UBDQ_ASSUME, REIMB_ASSUME,
         "'taken from its bonded or unbonding stake': in the shield model the coins move from the staking pools in one step; how the code takes them (split, pro-rata loop, shares rounded up, unbonding entries) is Model/Payout.lean, run against the real keeper's MakePayoutByProviderDelegations by the engine 'payout' on states reached by shield histories, after random slashes and undelegations in a discarded cache context"]),
-    "C05": dict(SHIELD, lean=["Shentu.Props.C05", "Shentu.Props.ShieldTie"]),
+    "C05": dict(SHIELD, lean=["Shentu.Props.C05", "Shentu.Props.C05H", "Shentu.Props.ShieldTie"]),
     "C06": dict(SHIELD, lean=["Shentu.Props.C06", "Shentu.Props.ShieldTie"], assumptions=SHIELD["assumptions"] + [
         "the converse (a funded purchase meeting the conditions is accepted) is proved for purchases whose fee or stake does not truncate to zero (amount x rate >= 1 unit); with the default minimum purchase of 50 CTK this always holds; below it the module answers ErrNoShield"]),
     "C07": dict(SHIELD, lean=["Shentu.Props.C07", "Shentu.Props.ShieldTie"]),
